@@ -747,23 +747,32 @@ def string_constants(code):
     return [n.value for n in ast.walk(tree) if isinstance(n, ast.Constant) and isinstance(n.value, str)]
 
 
-def lit_sig(formula, symptom):
-    """one signature for the known root cause 'an escaped back-slash directly before a quote character'"""
+def lit_sig(formula, symptom, triple_lone=False):
+    """one signature per known root cause"""
+    if triple_lone:
+        return "string-literal-in-python-fragment:triple-quoted-literal-containing-a-lone-quote-of-its-own-kind"
     if re.search(r"\\\\[\"']", formula):
         return "string-literal-in-python-fragment:escaped-backslash-before-a-quote"
     return "string-literal-in-python-fragment:" + symptom
 
 
 def drv_py_strings(c, ctx, col):
-    q = c.pick(["'", '"'])
-    Q = '"' if q == "'" else "'"
-    body = "".join(a.replace("q", q).replace("Q", Q) if a in ("\\q", "Q") else a for a in c.seq(LIT_ATOMS, ctx["L"]))
+    q = c.pick(["'", '"', "'''", '"""'])          # single- and triple-quoted literals
+    q1 = q[0]
+    Q = '"' if q1 == "'" else "'"
+    atoms = LIT_ATOMS + (["q1"] if len(q) == 3 else [])   # inside a triple-quoted literal a lone quote of its own kind is legal
+    chosen = c.seq(atoms, ctx["L"])
+    triple_lone = "q1" in chosen
+    body = "".join({"\\q": "\\" + q1, "Q": Q, "q1": q1}.get(a, a) for a in chosen)
     lit = q + body + q
     tmpl, materialize = c.pick(LIT_TEMPLATES)
     formula = tmpl % lit
     inner = formula[1:-1] if formula.startswith("{") else formula
     want_ast, want_strings = LX.python_ast(inner), string_constants(inner)
     if want_ast is None:
+        if len(q) == 3 and "q1" in atoms:
+            col.count("skipped:not-a-valid-triple-quoted-literal")   # e.g. the body ends in a lone quote of its own kind
+            raise Skip()
         raise AssertionError("harness: %r is not valid Python" % inner)
     if "\\" in body or "`" in body:
         col.interesting()
@@ -773,15 +782,15 @@ def drv_py_strings(c, ctx, col):
     detail = {"formula": formula, "literal": lit, "literal_content": ast.literal_eval(lit), "got": got,
               "repro": "DefaultFormulaParser(include_intercept=False).get_terms(%r)" % formula}
     if got[0] != "OK":
-        col.violation(key, detail, sig=lit_sig(formula, "not-parsed"))
+        col.violation(key, detail, sig=lit_sig(formula, "not-parsed", triple_lone))
         return
     got_strings = string_constants(got[1])
     if got_strings != want_strings:
         col.violation(key, dict(detail, got_literal_contents=got_strings, want_literal_contents=want_strings),
-                      sig=lit_sig(formula, "content-changed"))
+                      sig=lit_sig(formula, "content-changed", triple_lone))
         return
     if LX.python_ast(got[1]) != want_ast:
-        col.violation(key, detail, sig=lit_sig(formula, "not-ast-equivalent"))
+        col.violation(key, detail, sig=lit_sig(formula, "not-ast-equivalent", triple_lone))
         return
     if not materialize:
         return
@@ -797,13 +806,13 @@ def drv_py_strings(c, ctx, col):
     try:
         model_matrix(formula, pd.DataFrame({"x": VALS, "a b": ZZ}), context={"lab": lab})
     except Exception as e:  # noqa
-        col.violation(key, dict(detail, error="%s: %s" % (type(e).__name__, str(e)[:300])), sig=lit_sig(formula, "not-evaluated"))
+        col.violation(key, dict(detail, error="%s: %s" % (type(e).__name__, str(e)[:300])), sig=lit_sig(formula, "not-evaluated", triple_lone))
         return
     want_seen = [ast.literal_eval(lit)] + (["`x`"] if "lab(`a b`" in formula else [])
     if sorted(set(seen)) != sorted(set(want_seen)):
         col.violation(key, dict(detail, literals_received=seen, literals_expected=want_seen,
                                 repro="model_matrix(%r, DataFrame({'x': ..., 'a b': ...}), context={'lab': lambda x, s: (print(repr(s)), x)[1]})" % formula),
-                      sig=lit_sig(formula, "content-changed"))
+                      sig=lit_sig(formula, "content-changed", triple_lone))
 
 
 # evaluated fragments whose callee / attribute base is not a plain name ---------------------------------------------
@@ -1024,7 +1033,8 @@ def subchecks(tier, seed):
             shard_depth=1, bounds={"names": "all Python keywords and soft keywords; every string of length <= %d over %r"
                                             % (2 if quick else 3, SPECIAL_CHARS), "forms": [f[1] for f in NAME_FORMS]}),
         Sub("py-strings", drv_py_strings, {"L": 3 if quick else 4}, shard_depth=3,
-            bounds={"literal_body_atoms": LIT_ATOMS, "max_atoms": 3 if quick else 4, "quotes": ["'", '"'],
+            bounds={"literal_body_atoms": LIT_ATOMS, "max_atoms": 3 if quick else 4, "quotes": ["'", '"', "'''", '"""'],
+                    "extra_atom_in_triple_quoted_literals": "a lone quote of the literal's own kind",
                     "templates": [t for t, _ in LIT_TEMPLATES]}),
         Sub("python", drv_python, {"subset_bound": 8 if quick else 10}, shard_depth=2,
             bounds={"expressions": len(PY_EXPRS), "all_subsets_of_boundaries_up_to": 8 if quick else 10,
